@@ -45,10 +45,12 @@ ASSUMPTIONS = [
 KNOWN = {
     # array_discrete / transform.discrete: ndarray thresholds with >= 2 entries
     # raise ValueError (ndarray == "arithmetic" under numpy 2)
-    "F10_ndarray_thresholds": True,
+    # (fixed in /repo by cfb8beb: switch off, the assertion is live)
+    "F10_ndarray_thresholds": False,
     # array_boxcox: for lmbda < 0 the "values will be cut off" warning is
     # raised exactly when nothing is cut and not raised when values are cut
-    "boxcox_warn_neg_lmbda": True,
+    # (fixed in /repo by 850198e: switch off, the assertion is live)
+    "boxcox_warn_neg_lmbda": False,
 }
 
 EPS = float(np.finfo(float).eps)
@@ -1586,13 +1588,13 @@ def check_stat(case, rec):
 
 
 SUBS = [
-    Sub("pushforward", gen_push, check_push, quick=1000, thorough=30000, shards_quick=2, shards_thorough=4),
-    Sub("moments", gen_moments, check_moments, quick=600, thorough=20000, shards_quick=1, shards_thorough=2),
+    Sub("pushforward", gen_push, check_push, quick=1000, thorough=24000, shards_quick=2, shards_thorough=4),
+    Sub("moments", gen_moments, check_moments, quick=600, thorough=16000, shards_quick=1, shards_thorough=2),
     Sub("zinnharvey", gen_zh, check_zh, quick=400, thorough=10000, shards_quick=2, shards_thorough=4),
     Sub("force_moments", gen_force, check_force, quick=400, thorough=10000, shards_quick=1, shards_thorough=2),
-    Sub("boxcox", gen_boxcox, check_boxcox, quick=600, thorough=20000, shards_quick=1, shards_thorough=2),
-    Sub("discrete", gen_discrete, check_discrete, quick=800, thorough=30000, shards_quick=2, shards_thorough=4),
-    Sub("binary", gen_binary, check_binary, quick=400, thorough=10000, shards_quick=1, shards_thorough=2),
-    Sub("wrapper", gen_wrapper, check_wrapper, quick=1200, thorough=30000, shards_quick=2, shards_thorough=4),
-    Sub("srf_stat", gen_stat, check_stat, quick=48, thorough=1000, shards_quick=4, shards_thorough=4, shrink_quick=False),
+    Sub("boxcox", gen_boxcox, check_boxcox, quick=600, thorough=16000, shards_quick=1, shards_thorough=2),
+    Sub("discrete", gen_discrete, check_discrete, quick=800, thorough=24000, shards_quick=2, shards_thorough=4),
+    Sub("binary", gen_binary, check_binary, quick=400, thorough=8000, shards_quick=1, shards_thorough=2),
+    Sub("wrapper", gen_wrapper, check_wrapper, quick=1200, thorough=24000, shards_quick=2, shards_thorough=6),
+    Sub("srf_stat", gen_stat, check_stat, quick=48, thorough=840, shards_quick=4, shards_thorough=6, shrink_quick=False),
 ]
